@@ -43,12 +43,54 @@ def known(kind, case, result, why):
     return None
 
 
+def exception_fidelity(res):
+    """C04 (a) on the real code: the parent's receive_dict raises an exception of the same class and
+    with the same arguments as the one the worker sent, for builtin, stdlib and user-defined classes"""
+    import json as _json
+    import cloudpickle
+    from executorlib.standalone.interactive.communication import SocketInterface
+    rng = res.rng
+    user = type("UserDefinedError", (Exception,), {})
+    user2 = type("UserWithInit", (ValueError,), {})
+    classes = [ValueError, KeyError, RuntimeError, TypeError, ZeroDivisionError, OSError, _json.JSONDecodeError,
+               UnicodeDecodeError, user, user2, FileNotFoundError]
+    fails, n = [], 0
+    for _ in range(40 if res.tier == "quick" else 400):
+        cls = rng.choice(classes)
+        if cls is _json.JSONDecodeError:
+            exc = cls("bad", "doc", rng.randint(0, 2))
+        elif cls is UnicodeDecodeError:
+            exc = cls("utf-8", b"x", 0, 1, "reason")
+        else:
+            exc = cls(*[rng.choice([1, "msg", (1, 2), None]) for _ in range(rng.randint(0, 3))])
+        si = SocketInterface.__new__(SocketInterface)
+        si._spawner = type("S", (), {"poll": lambda self: False})()
+        si._socket, si._context, si._process = None, None, None
+        payload = cloudpickle.dumps({"error": exc, "error_type": str(type(exc))})
+        si._socket = type("Sock", (), {"recv": lambda self: payload, "close": lambda self: None})()
+        n += 1
+        try:
+            si.receive_dict()
+            fails.append("no exception raised for %r" % (exc,))
+        except BaseException as got:  # noqa
+            if type(got).__name__ != type(exc).__name__ or got.args != exc.args:
+                fails.append("worker raised %s%r, the future reports %s%r" % (
+                    type(exc).__name__, exc.args, type(got).__name__, got.args))
+    return n, fails
+
+
 def run(res, pid):
     t = TABLE[pid]
     ready = os.path.exists(os.path.join(core.TH, "Props", pid + ".v"))
     cone = [f for f in t["cone"] if os.path.exists(os.path.join(core.TH, f))]
     concur.concurrent_check(res, pid, cone, t["kinds"], t["n"][0], t["n"][1], t["oracle"], known, RULE, ASSUME,
                             props_ready=ready)
+    if pid == "C04":
+        n, fails = exception_fidelity(res)
+        res.cov["exception_fidelity_cases"] = n
+        if fails:
+            res.violation("exception class/arguments changed between worker and future",
+                          {"kind": "oracle", "case": {"why": fails[0]}, "count": len(fails)})
     if not ready:
         res.notes.append("Props/%s.v not present yet: this run checked the lockstep tie and the oracle only" % pid)
         res.cov["obligations"] = res.cov.get("obligations") or 0
